@@ -128,6 +128,11 @@ def run_lift(case, ctx):
         log.append(x)
         return ('r', x, p, q)
     lifted = loop(list, tuple, dict)(leaf_fn)
+    if case.get('relift'):
+        # the function had been lifted before, over fewer container types: lifting it with loop(list, tuple, dict) is still lifting over all three
+        inner = {'list': loop(list), 'tuple': loop(tuple), 'dict': loop(dict)}[case['relift']](leaf_fn)
+        lifted = loop(list, tuple, dict)(inner)
+        ctx.cls('lift:relifted_after_loop(%s)' % case['relift'])
     x = codec.dec(case['x'])
     comps = {n: codec.dec(t) for n, t in case['comps'].items()}
     snaps = (snap(x), {n: snap(v) for n, v in comps.items()})
@@ -253,7 +258,10 @@ def gen_lift_case(rng):
     how = {'x': rng.choice(['pos', 'pos', 'kw'])}
     for n in comps:
         how[n] = rng.choice(['pos', 'kw'])
-    return {'kind': 'lift', 'x': x, 'comps': comps, 'ckind': ckind, 'how': how}
+    case = {'kind': 'lift', 'x': x, 'comps': comps, 'ckind': ckind, 'how': how}
+    if rng.random() < 0.12:
+        case['relift'] = rng.choice(['list', 'tuple', 'dict'])
+    return case
 
 
 # ------------------------------------------------------------------ library helpers
@@ -350,6 +358,10 @@ def run_zip(case, ctx):
             v = range(len(v))
         elif how == 'array' and isinstance(v, list) and all(isinstance(e, (int, float)) for e in v):
             v = np.array(v)
+        elif how == 'tuple1_of_list' and isinstance(v, list):
+            v = (v,)          # a length-1 sequence whose only element happens to be a list: broadcast as one element
+        elif how == 'list1_of_list' and isinstance(v, list):
+            v = [v]
         live.append(v)
     seqs = [list(v) if isinstance(v, (list, tuple, range, np.ndarray)) else [v] for v in live]
     lengths = [len(s) for s in seqs]
@@ -391,7 +403,7 @@ def gen_zip_case(rng):
         else:
             n = base if rng.random() < 0.6 else rng.choice([0, 1, 2, 3, 4])
             vals.append([rng.choice([1, 2, 3, 'a']) for _ in range(n)])
-            forms.append(rng.choice(['list', 'tuple', 'range', 'array', 'list']))
+            forms.append(rng.choice(['list', 'tuple', 'range', 'array', 'list', 'list', 'tuple', 'tuple1_of_list', 'list1_of_list']))
     return {'kind': 'zip', 'vals': vals, 'forms': forms, 'nested_norm': rng.random() < 0.3}
 
 
